@@ -25,3 +25,31 @@ Definition struct_codec_wf (g : gostruct) : bool :=
   match initialize g with Ok c => codec_wf_b c | _ => false end.
 Theorem all_shipped_codecs_wf : forallb struct_codec_wf all_gostructs = true.
 Proof. vm_cast_no_check (eq_refl true). Qed.
+
+(* ---- the stronger well-formedness used by C08 (CodecIdem, ForwardProofs) ---- *)
+From GM Require Import CodecIdem.
+Fixpoint nodupb (l : list nat) : bool :=
+  match l with [] => true | x :: t => negb (existsb (Nat.eqb x) t) && nodupb t end.
+Lemma nodupb_sound l : nodupb l = true -> NoDup l.
+Proof.
+  induction l as [|x t IH]; intros H; [constructor|]. cbn in H. apply andb_prop in H. destruct H as [A B0].
+  constructor; [|auto]. intros X. assert (existsb (Nat.eqb x) t = true).
+  { apply existsb_exists. exists x. split; [exact X|apply PeanoNat.Nat.eqb_refl]. }
+  rewrite H in A. discriminate.
+Qed.
+Definition codec_full_b (c : codec) : bool :=
+  codec_wf_b c && nodupb (map fd_index (c_fields c)) &&
+  forallb (fun f => Nat.ltb (fd_index f) (c_nfields c)) (c_fields c) &&
+  (c_size_ext c <=? 255)%N && (c_size_normal c <=? 255)%N && (c_crc c <? 256)%N.
+Lemma codec_full_b_sound c : codec_full_b c = true ->
+  codec_wf2 c /\ (N.to_nat (c_size_ext c) <= 255)%nat /\ (N.to_nat (c_size_normal c) <= 255)%nat /\ (c_crc c < 256)%N.
+Proof.
+  unfold codec_full_b. intros H. repeat (apply andb_prop in H; let X := fresh "X" in destruct H as [H X]).
+  split; [split; [apply codec_wf_b_sound; unfold codec_wf_b; rewrite H, X4; reflexivity|split; [apply nodupb_sound; assumption|]]|].
+  - apply Forall_forall. intros f Hf. rewrite forallb_forall in X2. apply PeanoNat.Nat.ltb_lt. apply X2. exact Hf.
+  - apply N.leb_le in X1. apply N.leb_le in X0. apply N.ltb_lt in X. repeat split; try Lia.lia; exact X.
+Qed.
+Definition struct_codec_full (g : gostruct) : bool :=
+  match initialize g with Ok c => codec_full_b c | _ => false end.
+Theorem all_shipped_codecs_full : forallb struct_codec_full all_gostructs = true.
+Proof. vm_cast_no_check (eq_refl true). Qed.
